@@ -72,7 +72,10 @@ def gen_case(rng: random.Random, tier: str) -> dict:
     if rng.random() < 0.4 and lists[mapped[0]]:
         j = rng.randrange(len(mapped))
         if lists[mapped[j]]:
-            fault = {"kind": "raise", "node": f"h{j}", "pred": {mapped[j]: rng.choice(lists[mapped[j]])}, "fid": 0, "when": rng.choice(["before", "after"])}
+            # the failing node may be any function node of the inner graph (later nodes leave partial values behind);
+            # the item is selected by the input values of its run
+            fnode = rng.choice([nd["name"] for nd in inner["nodes"] if nd["kind"] == "fn"])
+            fault = {"kind": "raise", "node": fnode, "run_pred": {mapped[j]: rng.choice(lists[mapped[j]])}, "fid": 0, "when": rng.choice(["before", "after"]), "exc": rng.choice(["plain", "plain", "noargs", "keyerror"])}
     via = rng.choice(["runner_map", "node", "node"])
     outer = {"rename_in": rng.random() < 0.3, "rename_out": rng.random() < 0.3, "consumer": rng.random() < 0.5}
     cfgs = []
@@ -108,6 +111,11 @@ def _outer_spec(doc: dict) -> tuple[dict, dict, dict]:
     inner = doc["inner"]
     mapped = inner["mapped"]
     rin = {m: f"R{m}" for m in mapped[:1]} if doc["outer"]["rename_in"] else {}
+    if doc["outer"]["rename_in"]:
+        used = {p["name"] for nd in inner["nodes"] for p in nd.get("params", [])}
+        for b in inner["bc"][:1]:
+            if b in used:
+                rin[b] = f"R{b}"  # a broadcast input is renamed as well (clone lists are given in the renamed namespace)
     outs = [o for nd in inner["nodes"] if nd["kind"] == "fn" for o in nd["outs"]]
     rout = {outs[0]: f"R{outs[0]}"} if (doc["outer"]["rename_out"] and outs) else {}
     renames = []
@@ -170,9 +178,10 @@ def run_case(doc: dict) -> dict:
                 _judge_runner_map(doc, w, refs, failing, cs, tag, viol)
             else:
                 ospec, rin, rout = _outer_spec(doc)
-                vals = {**bvals, **{rin.get(m, m): list(doc["lists"][m]) for m in mapped}}
+                vals = {**{rin.get(b, b): v for b, v in bvals.items()}, **{rin.get(m, m): list(doc["lists"][m]) for m in mapped}}
                 w = run_world(ospec, vals, mode=label, cfg=cfg, faults=copy.deepcopy(faults), run_kwargs={"error_handling": "raise"})
                 _judge_node(doc, w, refs, failing, cs, rout, tag, viol)
+                vals = {b: vals[rin.get(b, b)] for b in bvals}  # back to the inner names for the identity check
             _judge_clone(doc, w, vals, cs, tag, viol)
             rts.append(w["rt"])
             res["runs"] += 1
@@ -335,7 +344,7 @@ def shrink_candidates(doc: dict):
                     c["lists"][mm] = c["lists"][mm][:-1]
             else:
                 c["lists"][m] = c["lists"][m][:-1]
-            if c.get("fault") and not any(c["fault"]["pred"].get(mm) in c["lists"][mm] for mm in inner["mapped"] if mm in c["fault"]["pred"]):
+            if c.get("fault") and not any(c["fault"]["run_pred"].get(mm) in c["lists"][mm] for mm in inner["mapped"] if mm in c["fault"]["run_pred"]):
                 c["fault"] = None
             yield c
     if doc.get("fault"):
